@@ -113,7 +113,12 @@ void harness(void) {
         if (VS_ROOTKIDS > 0) symx_assume(nc[0] == VS_ROOTKIDS);
         if (VS_ROOTKIDS < 0) symx_assume(nc[0] >= -(VS_ROOTKIDS));
         root->num_children = nc[0];
-        if (VS_N > 1 && VS_N < 6 && symx_choice(2, "root repetition")) { root->present |= REF_BIT(REF_SE_REPETITION_TYPE); root->repetition_type = REF_REP_REQUIRED; }
+        /* the root (message) is not a field: whatever repetition a writer states for it (absent, REQUIRED; parquet-mr's MessageType is
+           REPEATED, older writers emit that or OPTIONAL) it contributes to no column's levels */
+        if (VS_N > 1 && VS_N < 6) {
+            int rr = symx_choice(4, "root repetition");
+            if (rr) { root->present |= REF_BIT(REF_SE_REPETITION_TYPE); root->repetition_type = rr == 1 ? REF_REP_REQUIRED : rr == 2 ? REF_REP_OPTIONAL : REF_REP_REPEATED; }
+        }
     }
     for (int i = 1; i < VS_N; i++) {
         ref_schema_element* e = &D.schema[i];
